@@ -27,6 +27,10 @@ CHECKS = {
          "Trees (depth <= 6) of handler-bind (1-4 bindings, any order, duplicates, `condition`, `internal-panic`), ignore-errors, progn, calls; raise sites error / host-raised error / type error / lisp-forged internal-panic / host panic / rethrow, in bodies, handler expressions, handler bodies and helpers called from handlers; value, condition, error data, IsInternalPanic marker and the ordered effect trace are compared with the reference interpreter, and the pointer-identity pattern between the errors handlers saw (verif:capture) and the error finally returned must match the model's (rethrow re-raises the very error).",
          "Error data is restricted to self-evaluating values; messages of evaluator-raised errors are opaque; handler-bind without body forms is not generated (unspecified).",
          "DESIGN.md 4/C06"),
+ "C07": ("exploration", "twin execution (macro call vs eval of its macroexpansion; macroexpand-1 fixpoint vs macroexpand) + reference-model monitor (macro programs, quasiquote templates with quote marks) + distinctness monitor over gensym runs",
+         "Macro definitions generated from quasiquote templates (unquote/splice at first, middle, last, adjacent and empty splices, under quote marks, nested lists; expanding to macro calls and to definitions; gensym hygiene; computed at expansion time; defmacro and a shadowing macrolet) with call sites whose argument forms carry effect probes: the real run must agree with the reference interpreter (value, condition, ordered effects: arguments unevaluated, expansion evaluated once in the caller's scope), with the same program whose call sites read (eval (macroexpand '(m ...))), and iterating macroexpand-1 must reach macroexpand's result; quasiquote results (depth <= 6) are compared structurally including quote marks; gensym symbols of runs up to 2000 must be pairwise distinct and absent from the program's symbol set.",
+         "Trusts harness/refint's macro and quasiquote semantics; expansions containing gensyms are not compared textually.",
+         "DESIGN.md 4/C07"),
  "C09": ("exploration", "structural-snapshot invariant monitor + twin execution (shared Program vs fresh parse) + Go race detector over concurrent private runtimes + the repository's checked build (-tags elpscheck) as second sanitizer",
          "26 in-place/capacity-sensitive mutator forms x 5 literals x 4 routing shapes (function returning a literal, literal in a loop body, macro arguments and &rest lists, cdr/slice views held in a global) plus generated programs; each Program is parsed once, snapshotted node by node (pointer, type, scalar fields, quoting, seal, source, len/cap, child pointers) and fingerprinted, then loaded 2-5 times in one runtime against a re-parsing twin, in fresh differently-configured runtimes, and concurrently by 2/8/32 goroutines under GOMAXPROCS 2/16 in the -race build; results must equal the fresh-parse reference, snapshot and fingerprint must be unchanged, a bystander runtime's packages must not change, no race report; a sequential sub-list is repeated under -tags elpscheck.",
          "The race detector only sees accesses the workload performs; same-value writes are invisible to the snapshot.",
